@@ -14,8 +14,9 @@ Definition C03_full : Prop := forall inputs M tm,
   (forall u s T fld, In (u, s) inputs -> has_field s T fld -> is_builtin T = false -> has_field M T fld) /\
   (forall T fld, has_field M T fld -> exists u s, In (u, s) inputs /\ has_field s T fld).
 
-(* It is false of the faithful model (and of the code: listed finding C03-node-lost): with services [A;B]
-   where only A declares the Relay entry point Query.node, the merged Query type has no `node`. *)
+(* It is false of the faithful model (and of the code: listed finding C03-field-signature): two services that declare
+   the plain type V with a field x of different types merge, and the merged V has one of the two signatures only.
+   (Until fix of C03-node-lost the witness was the Relay entry point, lost unless the last service declared it.) *)
 Definition wA : schema :=
   [mkDef KInterface "Node" "" [] [mkField "id" [] "ID!"] [] [];
    mkDef KObject "N0" "" ["Node"] [mkField "id" [] "ID!"; mkField "a" [] "String"] [] [];
@@ -24,21 +25,31 @@ Definition wB : schema :=
   [mkDef KInterface "Node" "" [] [mkField "id" [] "ID!"] [] [];
    mkDef KObject "N0" "" ["Node"] [mkField "id" [] "ID!"; mkField "b" [] "String"] [] [];
    mkDef KObject "Query" "" [] [mkField "qb" [] "N0"] [] []].
+Definition vA : schema :=
+  [mkDef KObject "V" "" [] [mkField "x" [] "Int"] [] [];
+   mkDef KObject "Query" "" [] [mkField "qa" [] "V"] [] []].
+Definition vB : schema :=
+  [mkDef KObject "V" "" [] [mkField "x" [] "String"] [] [];
+   mkDef KObject "Query" "" [] [mkField "qb" [] "V"] [] []].
 
 Theorem C03_refuted : ~ C03_full.
 Proof.
   intros H.
-  destruct (merge [("A", wA); ("B", wB)]) as [|es|M tm] eqn:E; try (vm_compute in E; discriminate).
-  assert (Hwf : forall u s, In (u, s) [("A", wA); ("B", wB)] -> wf_schema s).
+  destruct (merge [("A", vA); ("B", vB)]) as [|es|M tm] eqn:E; try (vm_compute in E; discriminate).
+  assert (Hwf : forall u s, In (u, s) [("A", vA); ("B", vB)] -> wf_schema s).
   { intros u s [X|[X|[]]]; inversion X; subst; apply wf_schemab_ok; vm_compute; reflexivity. }
   destruct (H _ _ _ Hwf E) as [Hsup _].
-  assert (Hf : has_field wA "Query" (mkField "node" [mkArg "id" "ID!" None] "Node")).
-  { exists (mkDef KObject "Query" "" [] [mkField "qa" [] "N0"; mkField "node" [mkArg "id" "ID!" None] "Node"] [] []).
-    cbn. repeat split; auto. }
-  destruct (Hsup "A" wA "Query" _ (or_introl eq_refl) Hf eq_refl) as (d & Hd & Hn & Hfld).
-  vm_compute in E. inversion E; subst M. cbn in Hd.
+  assert (HfA : has_field vA "V" (mkField "x" [] "Int")).
+  { exists (mkDef KObject "V" "" [] [mkField "x" [] "Int"] [] []). cbn. repeat split; auto. }
+  assert (HfB : has_field vB "V" (mkField "x" [] "String")).
+  { exists (mkDef KObject "V" "" [] [mkField "x" [] "String"] [] []). cbn. repeat split; auto. }
+  destruct (Hsup "A" vA "V" _ (or_introl eq_refl) HfA eq_refl) as (d & Hd & Hn & Hfld).
+  destruct (Hsup "B" vB "V" _ (or_intror (or_introl eq_refl)) HfB eq_refl) as (d' & Hd' & Hn' & Hfld').
+  vm_compute in E. inversion E; subst M. cbn in Hd, Hd'.
   repeat (destruct Hd as [Hd|Hd]; [subst d; cbn in Hn; try discriminate Hn; cbn in Hfld;
-     repeat (destruct Hfld as [Hfld|Hfld]; [discriminate Hfld|]); try contradiction|]); contradiction.
+     repeat (destruct Hfld as [Hfld|Hfld]; [try discriminate Hfld|]); try contradiction|]); try contradiction.
+  all: repeat (destruct Hd' as [Hd'|Hd']; [subst d'; cbn in Hn'; try discriminate Hn'; cbn in Hfld';
+     repeat (destruct Hfld' as [Hfld'|Hfld']; [try discriminate Hfld'|]); try contradiction|]); contradiction.
 Qed.
 
 (* The part that is proved, for any number of services in any order (C03_partial): *)
@@ -69,13 +80,12 @@ Qed.
 
 (* (3) the other inclusion, at the level of field names: every field name of every service's object / interface /
    input type is a field name of the same-named type of the merged schema, for any number of services in any order —
-   away from `id`, built-in names and, on a root type, names under which some service declares a field of the shape
-   of the Relay entry point (finding C03-node-lost). Signatures are not claimed (finding C03-field-signature). *)
+   away from `id` and built-in names; since the repair of C03-node-lost also for the Relay entry point `node`, whichever
+   services declare it. Signatures are not claimed (finding C03-field-signature). *)
 Theorem merged_has_every_field_name : forall inputs M tm u s d n,
   (forall u s, In (u, s) inputs -> wf_schema s) -> merge inputs = MOk M tm ->
   In (u, s) inputs -> In d s -> is_builtin (d_name d) = false -> d_name d <> "Node" -> fielded_kind (d_kind d) ->
   field_named n (d_fields d) = true -> n <> "id" -> is_builtin n = false ->
-  (is_root (d_name d) = true -> no_node_shape inputs (d_name d) n) ->
   exists D, In D M /\ d_name D = d_name d /\ field_named n (d_fields D) = true.
 Proof. exact Merge.SupProofs.merged_has_every_field_name. Qed.
 
@@ -103,6 +113,14 @@ Proof.
   - eexists. split; [right; left; reflexivity|]. split; [reflexivity|]. cbn. auto 10.
   - eexists. split; [right; left; reflexivity|]. split; [reflexivity|]. cbn. auto 10.
   - eexists. split; [right; right; left; reflexivity|]. split; [reflexivity|]. cbn. auto 10.
+Qed.
+
+(* the Relay entry point survives whichever service declares it (formerly the listed finding C03-node-lost) *)
+Example node_is_kept_in_either_order : exists M tm, merge [("A", wA); ("B", wB)] = MOk M tm /\
+  has_field M "Query" (mkField "node" [mkArg "id" "ID!" None] "Node").
+Proof.
+  eexists. eexists. split; [vm_compute; reflexivity|].
+  eexists. split; [right; right; left; reflexivity|]. split; [reflexivity|]. cbn. auto 10.
 Qed.
 
 Print Assumptions C03_refuted.
